@@ -166,7 +166,9 @@ func epSignatureFor(in EPIn, format string, id int, d ocispec.Descriptor) []byte
 	case "valid":
 		return env
 	case "validTS":
-		return cachedEnv(key+"|ts", func() []byte { return WithTimestampToken(format, env, tsaGood().token(SignatureValue(format, env), at(-1), 1)) })
+		return cachedEnv(key+"|ts", func() []byte {
+			return WithTimestampToken(format, env, tsaGood().token(SignatureValue(format, env), at(-1), 1))
+		})
 	case "invalid":
 		return FlipSignature(format, env, id)
 	case "garbage":
